@@ -19,8 +19,10 @@ Modelling decisions
   non-empty (files are only created by a flush of a non-empty buffer).
 * `ts` is the entry's time in ns.  Go's zero `time.Time` (`olderThan.IsZero()`,
   `oldest.IsZero()`, `oldestNano == 0`) is `none`.
-* Strings are bytes; `strings.EqualFold`/`ToLower` are ASCII case folding
-  (exact on ASCII data; non-ASCII case folding is not modelled).
+* Strings are bytes, decoded as Go decodes UTF-8; `strings.EqualFold` is rune-wise
+  equality under Unicode simple case folding (Model/QLogFold.lean, table
+  generated from unicode.SimpleFold); `aghnet.NormalizeDomain` lower-cases
+  ASCII only (names are ASCII in the generator).
 * `findClient`, `Ignored.Has`, `idna.ToASCII`, `time.Parse` are environment /
   library oracles: the client table, the set of ignored hosts, the IDNA form of
   the term and the parsed `older_than` are inputs.
@@ -35,6 +37,7 @@ Modelling decisions
 Core Lean only.
 -/
 import AGH.Model.Bytes
+import AGH.Model.QLogFold
 namespace AGH.C07
 open AGH AGH.Bytes
 
@@ -123,21 +126,23 @@ def isIgnored (c : Conf) (host : Bytes) : Bool := c.ignored.contains host
 
 /-! ## Term criterion -/
 
-/-- `strings.EqualFold` (ASCII). -/
-def equalFold (a b : Bytes) : Bool := lower a == lower b
+/-- `hasPrefixFold(s[i:], substr)` on the folded runes: the rest of the field
+starts with the term (rune by rune, equal under simple case folding). -/
+def hasPrefixFoldR : List Nat → List Nat → Bool
+  | _, [] => true
+  | [], _ :: _ => false
+  | a :: s, b :: t => a == b && hasPrefixFoldR s t
 
-/-- The loop of the package's `containsFold` for a non-empty `sub` of length `n`:
-try every start offset while enough bytes remain. -/
-def containsFoldGo (sub : Bytes) : Bytes → Bool
+/-- The loop `for i := range s` of `containsFold` over the rune starts of the
+field (`s[i:]` at a rune start decodes to the corresponding rest of the rune
+list: `decodeRunes` is "decode one rune, drop its bytes, go on"). -/
+def containsRunes (t : List Nat) : List Nat → Bool
   | [] => false
-  | b :: rest =>
-    if (b :: rest).length < sub.length then false
-    else if equalFold ((b :: rest).take sub.length) sub then true
-    else containsFoldGo sub rest
+  | a :: s => hasPrefixFoldR (a :: s) t || containsRunes t s
 
 /-- searchcriterion.go `containsFold`. -/
 def containsFold (s sub : Bytes) : Bool :=
-  if sub.length = 0 then true else containsFoldGo sub s
+  if sub.length = 0 then true else containsRunes (foldRunes sub) (foldRunes s)
 
 /-- `ctDomainOrClientCaseStrict`. -/
 def termStrict (term ascii cid name host ip : Bytes) : Bool :=
